@@ -135,6 +135,51 @@ pub fn run(case: &Value, ctx: &Ctx) -> Outcome {
         }
         let _ = std::fs::remove_file(&path);
     }
+    // Inputs of the gzip family that are NOT what the BGZF reader expects (a plain gzip member; BGZF whose first block carries an
+    // extra subfield next to BC; BGZF followed by garbage): whatever the tool makes of them, it makes the same of them for every
+    // --threads value, by path and on stdin.  Nothing is expected of the outcome itself.
+    if id % 3 == 0 {
+        use std::io::Write;
+        let plain_gz = { let mut e = flate2::write::GzEncoder::new(Vec::new(), flate2::Compression::default()); e.write_all(vcf.as_bytes()).unwrap(); e.finish().unwrap() };
+        let extra_subfield = {
+            // XLEN = 12: subfield "XY" (2 bytes of payload) in front of the BC subfield
+            let mut b = gen::bgzf_block(vcf.as_bytes());
+            let xy = [b'X', b'Y', 2, 0, 7, 7];
+            b.splice(12..12, xy);
+            b[10] = 12;
+            let total = b.len() as u16 - 1;
+            b[12 + 6 + 4] = (total & 0xff) as u8;
+            b[12 + 6 + 5] = (total >> 8) as u8;
+            b.extend(gen::bgzf_block(&[]));
+            b
+        };
+        let trailing = { let mut b = gen::bgzf(&[vcf.as_bytes()]); b.extend_from_slice(b"garbage"); b };
+        for (label, bytes) in [("plain-gzip", plain_gz), ("bgzf-extra-subfield", extra_subfield), ("bgzf-trailing-garbage", trailing)] {
+            let path = cli::scratch(ctx, &format!("c12_{id:016x}_{label}.vcf.gz"), &bytes);
+            let mut first: Option<(Option<i32>, Vec<u8>)> = None;
+            for (k, t) in ["1", "2", "4", "16"].iter().enumerate() {
+                let via_stdin = k % 2 == 1;
+                let mut args = base_args.clone();
+                args.extend(["--threads".into(), t.to_string()]);
+                if !via_stdin {
+                    args.push(path.clone());
+                }
+                let a: Vec<&str> = args.iter().map(|s| s.as_str()).collect();
+                let r = cli::sfs(ctx, &a, if via_stdin { Some(&bytes) } else { None });
+                runs += 1;
+                if r.panicked() {
+                    out.fail(format!("container/panic/{label}"), json!({"threads": t, "stderr": r.stderr.chars().take(300).collect::<String>()}));
+                    continue;
+                }
+                match &first {
+                    None => first = Some((r.code, r.stdout.clone())),
+                    Some((c, so)) => out.check(*c == r.code && *so == r.stdout, || format!("container/threads-disagree/{label}"),
+                        || json!({"threads": t, "stdin": via_stdin, "code": r.code, "first_code": c, "stderr": r.stderr.chars().take(200).collect::<String>()})),
+                }
+            }
+            let _ = std::fs::remove_file(&path);
+        }
+    }
     out.tag(format!("runs:{runs}"));
     out
 }
@@ -157,7 +202,7 @@ pub fn cohort_vcf(seed: u64, nsamples: usize, nrecs: usize, miss: u64, multi_pct
             };
             gt.insert(c.clone(), g);
         }
-        let rec = gen::Rec { contig: if r < nrecs / 2 { "chr1".into() } else { "chr2".into() }, pos: (r + 1) as u64, bad: false, nogt: false, gt };
+        let rec = gen::Rec { contig: if r < nrecs / 2 { "chr1".into() } else { "chr2".into() }, pos: (r + 1) as u64, bad: false, nogt: false, short_alt: false, gt };
         text.push_str(&gen::vcf_record(&cols, &rec, r, false));
     }
     (cols, text)
@@ -187,7 +232,7 @@ fn cohort(case: &Value, ctx: &Ctx) -> Outcome {
             };
             gt.insert(c.clone(), g);
         }
-        let rec = gen::Rec { contig: if r < nrecs / 2 { "chr1".into() } else { "chr2".into() }, pos: (r + 1) as u64, bad: false, nogt: false, gt };
+        let rec = gen::Rec { contig: if r < nrecs / 2 { "chr1".into() } else { "chr2".into() }, pos: (r + 1) as u64, bad: false, nogt: false, short_alt: false, gt };
         text.push_str(&gen::vcf_record(&cols, &rec, r, false));
         recs.push(rec);
     }
